@@ -19,6 +19,6 @@ ConversionsLand == \A i \in 1..Len(stage.frames) :
 \* SystemExit is never swallowed by an `except Exception`
 ExitPasses == Comes(stage, "SystemExit") = "SystemExit"
 \* every stage below a parse method ends in its (TypeError, KeyError) handler
-OuterFrame == stage.frames[Len(stage.frames)] \in {F_parse_method, F_path_resolve}
+OuterFrame == stage.frames[Len(stage.frames)] \in {F_parse_method, F_path_resolve, F_path_read}
 EmitRow == Emit => PrintT(ToJson([method |-> m, stage |-> stage.name, cls |-> cls, comes |-> Comes(stage, cls), frames |-> [i \in 1..Len(stage.frames) |-> stage.frames[i].name]]))
 =============================================================================
